@@ -481,4 +481,384 @@ theorem reopen_spec {G : List Entry} (hG : Sorted G) {d : Disk} (h : DInv G d) :
   cases X
   simp_all
 
+/-! closed forms of the disk after each operation's write -/
+
+theorem applyWrite_puts (d : Disk) (es : List Entry) :
+    applyWrite d (es.map Prim.putLog) = { d with ls := { d.ls with log := appendLog d.ls.log es } } := by
+  induction es generalizing d with
+  | nil => rfl
+  | cons e es ih =>
+    simp only [List.map_cons, applyWrite, List.foldl_cons] at ih ⊢
+    rw [ih]; rfl
+
+theorem applyWrite_dels (d : Disk) (is : List Nat) :
+    applyWrite d (is.map Prim.delLog) =
+      { d with ls := { d.ls with log := d.ls.log.filter (fun e => !is.contains e.id.index) } } := by
+  induction is generalizing d with
+  | nil =>
+    have : List.filter (fun (_ : Entry) => true) d.ls.log = d.ls.log := List.filter_eq_self.2 (fun _ _ => rfl)
+    simp [applyWrite, this]
+  | cons i is ih =>
+    simp only [List.map_cons, applyWrite, List.foldl_cons] at ih ⊢
+    rw [ih]
+    simp only [applyPrim, List.filter_filter]
+    congr 2
+    apply List.filter_congr
+    intro x _
+    by_cases h : x.id.index = i <;> simp [h]
+
+theorem applyWrite_append (d : Disk) (w₁ w₂ : Write) : applyWrite d (w₁ ++ w₂) = applyWrite (applyWrite d w₁) w₂ := by
+  simp [applyWrite, List.foldl_append]
+
+/-- deleting the keys of the entries selected by an index predicate = filtering them out -/
+theorem dels_filter (log : List Entry) (p : Nat → Bool) :
+    log.filter (fun e => !((log.filter (fun e => p e.id.index)).map (fun e => e.id.index)).contains e.id.index)
+      = log.filter (fun e => !p e.id.index) := by
+  apply List.filter_congr
+  intro x hx
+  congr 1
+  by_cases hp : p x.id.index = true
+  · rw [hp]
+    simp only [List.contains_eq_mem, List.mem_map, List.mem_filter, decide_eq_true_eq]
+    exact ⟨x, ⟨hx, hp⟩, rfl⟩
+  · simp only [Bool.not_eq_true] at hp
+    rw [hp]
+    simp only [List.contains_eq_mem, List.mem_map, List.mem_filter, decide_eq_false_iff_not]
+    rintro ⟨y, ⟨_, hy⟩, heq⟩
+    rw [heq, hp] at hy; cases hy
+
+/-- `purge_logs_upto` on the disk is `purgeUpto` on the log store -/
+theorem disk_purge (nd : Node) (id : LogId) :
+    applyWrites nd.disk (writesOf nd (.purge id)) = { nd.disk with ls := nd.disk.ls.purgeUpto id } := by
+  simp only [writesOf, applyWrites, List.foldl_cons, List.foldl_nil, applyWrite_append]
+  have := applyWrite_dels nd.disk ((nd.disk.ls.log.filter (fun e => decide (e.id.index ≤ id.index))).map (·.id.index))
+  simp only [List.map_map] at this
+  rw [show (Prim.delLog ∘ fun (e : Entry) => e.id.index) = fun e => Prim.delLog e.id.index from rfl] at this
+  rw [this, dels_filter nd.disk.ls.log (fun i => decide (i ≤ id.index))]
+  simp only [applyWrite, List.foldl_cons, List.foldl_nil, applyPrim, LogStore.purgeUpto, purgeLog]
+  congr 2
+  apply List.filter_congr
+  intro x _
+  simp only [← Nat.not_lt, decide_not, Bool.not_not]
+
+/-- `delete_conflict_logs_since` on the disk is `deleteConflictSince` on the log store -/
+theorem disk_deleteConflict (nd : Node) (id : LogId) :
+    applyWrites nd.disk (writesOf nd (.deleteConflict id)) = { nd.disk with ls := nd.disk.ls.deleteConflictSince id } := by
+  simp only [writesOf, applyWrites, List.foldl_cons, List.foldl_nil]
+  have := applyWrite_dels nd.disk ((nd.disk.ls.log.filter (fun e => decide (id.index ≤ e.id.index))).map (·.id.index))
+  simp only [List.map_map] at this
+  rw [show (Prim.delLog ∘ fun (e : Entry) => e.id.index) = fun e => Prim.delLog e.id.index from rfl] at this
+  rw [this, dels_filter nd.disk.ls.log (fun i => decide (id.index ≤ i))]
+  simp only [LogStore.deleteConflictSince, truncLog]
+  congr 2
+  apply List.filter_congr
+  intro x _
+  simp only [← Nat.not_le, decide_not]
+
+theorem disk_append (nd : Node) (es : List Entry) :
+    applyWrites nd.disk (writesOf nd (.append es)) = { nd.disk with ls := nd.disk.ls.append es } := by
+  simp only [writesOf, applyWrites, List.foldl_cons, List.foldl_nil, applyWrite_puts]; rfl
+
+theorem disk_saveVote (nd : Node) (v : Vote) :
+    applyWrites nd.disk (writesOf nd (.saveVote v)) = { nd.disk with ls := nd.disk.ls.saveVote v } := rfl
+
+/-- openraft's calling discipline on a persistent store, relative to the committed log `G` -/
+def Op.Ok (G : List Entry) (nd : Node) : Op → Prop
+  | .saveVote _ => True
+  /- entries are appended above the applied position (applied entries are committed, never overwritten) -/
+  | .append es => ∀ e ∈ es, above (oidx nd.disk.lastApplied) e.id.index = true
+  /- the entries handed to the state machine are the committed entries of that index range -/
+  | .applyTo j => toApply nd j =
+      G.filter (fun e => above (oidx nd.disk.lastApplied) e.id.index && decide (e.id.index ≤ j))
+  | .buildSnapshot => True
+  /- an installed snapshot was built by a coordinator that applied a prefix of the committed log -/
+  | .installSnapshot s => ∃ o, s = Varpulis.RaftSM.buildSnapshot (smOf G o)
+  /- the log is purged only up to the position of the stored snapshot -/
+  | .purge id => ∃ s, nd.disk.snapData = some s ∧ upto (oidx s.dataLast) id.index = true
+  /- only entries above the applied position are deleted as conflicting -/
+  | .deleteConflict id => above (oidx nd.disk.lastApplied) id.index = true
+
+def OpsOk (G : List Entry) (nd : Node) : List Op → Prop
+  | [] => True
+  | op :: ops => op.Ok G nd ∧ OpsOk G (step nd op) ops
+
+/-- invariant of a running node -/
+structure Inv (G : List Entry) (nd : Node) : Prop where
+  disk : DInv G nd.disk
+  mem : nd.mem = smOf G (oidx nd.disk.lastApplied)
+
+theorem Inv.init (G : List Entry) : Inv G {} := by
+  refine ⟨⟨Sorted.nil, ?_, ?_, ?_, ?_⟩, ?_⟩
+  · simp [oidx, smOf, cutN_none, SM.init]
+  · simp [oidx, smOf, cutN_none, SM.init]
+  · intro s hs; cases hs
+  · intro e _ h; simp [oidx, upto] at h
+  · simp [oidx, smOf, cutN_none, SM.init]
+
+theorem upto_above_false {o : Option Nat} {n : Nat} (h1 : upto o n = true) (h2 : above o n = true) : False := by
+  cases o with
+  | none => simp [upto] at h1
+  | some k => simp [upto, above] at h1 h2; omega
+
+theorem above_of_not_upto {o : Option Nat} {n : Nat} (h : upto o n = false) : above o n = true := by
+  cases o with
+  | none => rfl
+  | some k => simp [upto, above] at h ⊢; omega
+
+/-- applying the committed entries of the range `(o, j]` to the spec at `o` gives the spec at the new position -/
+theorem apply_cut {G : List Entry} (hG : Sorted G) (o : Option Nat) (j : Nat)
+    (ho : oidx (smOf G o).lastApplied = o) :
+    let m := applyEntriesT (smOf G o) (G.filter (fun e => above o e.id.index && decide (e.id.index ≤ j)))
+    m = smOf G (oidx m.lastApplied) ∧
+    (∀ x, upto o x = true → upto (oidx m.lastApplied) x = true) ∧
+    (∀ x, upto (oidx m.lastApplied) x = true → upto o x = true ∨ (above o x = true ∧ x ≤ j)) := by
+  intro m
+  have hm : m.lastApplied = match (G.filter (fun e => above o e.id.index && decide (e.id.index ≤ j))).getLast? with
+      | some e => some e.id
+      | none => (smOf G o).lastApplied := applyEntriesT_lastApplied _ _
+  cases hl : (G.filter (fun e => above o e.id.index && decide (e.id.index ≤ j))).getLast? with
+  | none =>
+    have hnil := List.getLast?_eq_none_iff.1 hl
+    have hmm : m = smOf G o := by show applyEntriesT _ _ = _; rw [hnil]; rfl
+    rw [hl] at hm
+    simp only at hm
+    rw [hm, ho]
+    exact ⟨hmm, fun x h => h, fun x h => .inl h⟩
+  | some last =>
+    rw [hl] at hm
+    simp only at hm
+    have hlast := List.mem_of_getLast? hl
+    have hlast' := (List.mem_filter.1 hlast).2
+    simp only [Bool.and_eq_true, decide_eq_true_eq] at hlast'
+    have hle : ∀ x, o = some x → x ≤ last.id.index := by
+      intro x hx; subst hx; have := hlast'.1; simp [above] at this; omega
+    have hes : G.filter (fun e => above o e.id.index && decide (e.id.index ≤ last.id.index)) =
+        G.filter (fun e => above o e.id.index && decide (e.id.index ≤ j)) := by
+      apply List.filter_congr
+      intro x hx
+      by_cases ha : above o x.id.index = true
+      · simp only [ha, Bool.true_and]
+        by_cases hj : x.id.index ≤ j
+        · have : x ∈ G.filter (fun e => above o e.id.index && decide (e.id.index ≤ j)) :=
+            List.mem_filter.2 ⟨hx, by simp [ha, hj]⟩
+          have := sorted_getLast_max (hG.filter _) this hl
+          simp [hj, this]
+        · have : ¬ x.id.index ≤ last.id.index := by omega
+          simp [hj, this]
+      · simp only [Bool.not_eq_true] at ha; simp [ha]
+    rw [hm]
+    simp only [oidx]
+    refine ⟨?_, ?_, ?_⟩
+    · show applyEntriesT _ _ = _
+      rw [smOf, smOf, cutN_split hG o last.id.index hle, applyEntriesT_append, hes]
+    · intro x hx
+      cases o with
+      | none => simp [upto] at hx
+      | some k => simp only [upto, decide_eq_true_eq] at hx ⊢; have := hle k rfl; omega
+    · intro x hx
+      simp only [upto, decide_eq_true_eq] at hx
+      by_cases hu : upto o x = true
+      · exact .inl hu
+      · simp only [Bool.not_eq_true] at hu
+        exact .inr ⟨above_of_not_upto hu, by omega⟩
+
+theorem step_disk (nd : Node) (op : Op) : (step nd op).disk = applyWrites nd.disk (writesOf nd op) := rfl
+theorem step_mem (nd : Node) (op : Op) : (step nd op).mem = memAfter nd op := rfl
+
+theorem inv_saveVote {G : List Entry} {nd : Node} (h : Inv G nd) (v : Vote) : Inv G (step nd (.saveVote v)) := by
+  have hd := h.disk
+  refine ⟨?_, ?_⟩
+  · rw [step_disk, disk_saveVote]
+    exact ⟨hd.sorted, hd.applied, hd.membership, hd.snap, hd.log⟩
+  · rw [step_disk, disk_saveVote, step_mem]; exact h.mem
+
+theorem inv_append {G : List Entry} {nd : Node} (h : Inv G nd) (es : List Entry)
+    (hok : Op.Ok G nd (.append es)) : Inv G (step nd (.append es)) := by
+  have hd := h.disk
+  refine ⟨?_, ?_⟩
+  · rw [step_disk, disk_append]
+    refine ⟨sorted_appendLog es hd.sorted, hd.applied, hd.membership, hd.snap, ?_⟩
+    intro e ha hu
+    rw [← hd.log e ha hu]
+    constructor
+    · intro he
+      rcases mem_appendLog_of he with h1 | h1
+      · exact absurd (hok e h1) (by intro h2; exact upto_above_false hu h2)
+      · exact h1
+    · intro he
+      apply mem_appendLog_keep he
+      intro e' he' heq
+      have := hok e' he'
+      rw [← heq] at this
+      exact upto_above_false hu this
+  · rw [step_disk, disk_append, step_mem]; exact h.mem
+
+theorem inv_deleteConflict {G : List Entry} {nd : Node} (h : Inv G nd) (id : LogId)
+    (hok : Op.Ok G nd (.deleteConflict id)) : Inv G (step nd (.deleteConflict id)) := by
+  have hd := h.disk
+  refine ⟨?_, ?_⟩
+  · rw [step_disk, disk_deleteConflict]
+    refine ⟨hd.sorted.filter _, hd.applied, hd.membership, hd.snap, ?_⟩
+    intro e ha hu
+    rw [← hd.log e ha hu]
+    simp only [LogStore.deleteConflictSince, truncLog, List.mem_filter, decide_eq_true_eq, and_iff_left_iff_imp]
+    intro _
+    -- e.index ≤ applied position < id.index
+    have hok' : above (oidx nd.disk.lastApplied) id.index = true := hok
+    cases hla : oidx nd.disk.lastApplied with
+    | none => rw [hla] at hu; simp [upto] at hu
+    | some k => rw [hla] at hu hok'; simp [upto, above] at hu hok'; omega
+  · rw [step_disk, disk_deleteConflict, step_mem]; exact h.mem
+
+theorem inv_purge {G : List Entry} {nd : Node} (h : Inv G nd) (id : LogId)
+    (hok : Op.Ok G nd (.purge id)) : Inv G (step nd (.purge id)) := by
+  have hd := h.disk
+  obtain ⟨s, hs, hle⟩ := hok
+  refine ⟨?_, ?_⟩
+  · rw [step_disk, disk_purge]
+    refine ⟨hd.sorted.filter _, hd.applied, hd.membership, hd.snap, ?_⟩
+    intro e ha hu
+    rw [← hd.log e ha hu]
+    simp only [LogStore.purgeUpto, purgeLog, List.mem_filter, decide_eq_true_eq, and_iff_left_iff_imp]
+    intro _
+    have ha' : above (oidx s.dataLast) e.id.index = true := by
+      have : snapFrom nd.disk = oidx s.dataLast := by simp [snapFrom, hs]
+      rw [← this]; exact ha
+    cases hk : oidx s.dataLast with
+    | none => rw [hk] at hle; simp [upto] at hle
+    | some k => rw [hk] at hle ha'; simp [upto, above] at hle ha'; omega
+  · rw [step_disk, disk_purge, step_mem]; exact h.mem
+
+theorem inv_build {G : List Entry} {nd : Node} (h : Inv G nd) : Inv G (step nd .buildSnapshot) := by
+  have hd := h.disk
+  have hmem := h.mem
+  have hla : nd.mem.lastApplied = nd.disk.lastApplied := by rw [hmem]; exact hd.applied
+  refine ⟨⟨hd.sorted, hd.applied, hd.membership, ?_, ?_⟩, h.mem⟩
+  · intro s hs
+    have : s = buildSnapshot nd.mem := by
+      simp [step, writesOf, applyWrites, applyWrite, applyPrim] at hs; exact hs.symm
+    subst this
+    refine ⟨?_, ?_⟩
+    · show nd.mem.state = (smOf G (oidx nd.mem.lastApplied)).state
+      rw [hla, ← hmem]
+    · intro x hx
+      have hx' : oidx nd.mem.lastApplied = some x := hx
+      rw [hla] at hx'
+      show upto (oidx nd.disk.lastApplied) x = true
+      rw [hx']; simp [upto]
+  · intro e ha hu
+    exfalso
+    have ha' : above (oidx nd.mem.lastApplied) e.id.index = true := ha
+    rw [hla] at ha'
+    exact upto_above_false hu ha'
+
+theorem inv_install {G : List Entry} (hG : Sorted G) {nd : Node} (h : Inv G nd) (s : Snapshot)
+    (hok : Op.Ok G nd (.installSnapshot s)) : Inv G (step nd (.installSnapshot s)) := by
+  have hd := h.disk
+  obtain ⟨o, rfl⟩ := hok
+  have hfix := smOf_fix hG o
+  refine ⟨⟨hd.sorted, ?_, ?_, ?_, ?_⟩, ?_⟩
+  · show (smOf G (oidx (smOf G o).lastApplied)).lastApplied = (smOf G o).lastApplied
+    rw [hfix]
+  · show (smOf G (oidx (smOf G o).lastApplied)).membership = (smOf G o).membership
+    rw [hfix]
+  · intro s hs
+    have : s = buildSnapshot (smOf G o) := by
+      simp [step, writesOf, applyWrites, applyWrite, applyPrim] at hs; exact hs.symm
+    subst this
+    refine ⟨?_, ?_⟩
+    · show (smOf G o).state = (smOf G (oidx (smOf G o).lastApplied)).state
+      rw [hfix]
+    · intro x hx
+      show upto (oidx (smOf G o).lastApplied) x = true
+      have hx' : oidx (smOf G o).lastApplied = some x := hx
+      rw [hx']; simp [upto]
+  · intro e ha hu
+    exfalso
+    have ha' : above (oidx (smOf G o).lastApplied) e.id.index = true := ha
+    have hu' : upto (oidx (smOf G o).lastApplied) e.id.index = true := hu
+    exact upto_above_false hu' ha'
+  · show smOf G o = smOf G (oidx (smOf G o).lastApplied)
+    rw [hfix]
+
+theorem inv_apply {G : List Entry} (hG : Sorted G) {nd : Node} (h : Inv G nd) (j : Nat)
+    (hok : Op.Ok G nd (.applyTo j)) : Inv G (step nd (.applyTo j)) := by
+  have hd := h.disk
+  have hmem := h.mem
+  have hla : nd.mem.lastApplied = nd.disk.lastApplied := by rw [hmem]; exact hd.applied
+  have ho : oidx (smOf G (oidx nd.disk.lastApplied)).lastApplied = oidx nd.disk.lastApplied := by rw [hd.applied]
+  obtain ⟨hcut1, hcut2, hcut3⟩ := apply_cut hG (oidx nd.disk.lastApplied) j ho
+  have hok' : toApply nd j =
+      G.filter (fun e => above (oidx nd.disk.lastApplied) e.id.index && decide (e.id.index ≤ j)) := hok
+  have hm : memAfter nd (.applyTo j) = applyEntriesT (smOf G (oidx nd.disk.lastApplied))
+      (G.filter (fun e => above (oidx nd.disk.lastApplied) e.id.index && decide (e.id.index ≤ j))) := by
+    simp only [memAfter]; rw [hok', hmem]
+  refine ⟨⟨hd.sorted, ?_, ?_, ?_, ?_⟩, ?_⟩
+  · show (smOf G (oidx (memAfter nd (.applyTo j)).lastApplied)).lastApplied = (memAfter nd (.applyTo j)).lastApplied
+    rw [hm, ← hcut1]
+  · show (smOf G (oidx (memAfter nd (.applyTo j)).lastApplied)).membership = (memAfter nd (.applyTo j)).membership
+    rw [hm, ← hcut1]
+  · intro s hs
+    have hs' : nd.disk.snapData = some s := hs
+    obtain ⟨h1, h2⟩ := hd.snap s hs'
+    refine ⟨h1, ?_⟩
+    intro x hx
+    show upto (oidx (memAfter nd (.applyTo j)).lastApplied) x = true
+    rw [hm]; exact hcut2 x (h2 x hx)
+  · intro e ha hu
+    have ha' : above (snapFrom nd.disk) e.id.index = true := ha
+    have hu' : upto (oidx (memAfter nd (.applyTo j)).lastApplied) e.id.index = true := hu
+    rw [hm] at hu'
+    show e ∈ nd.disk.ls.log ↔ e ∈ G
+    rcases hcut3 _ hu' with h3 | ⟨h3, h4⟩
+    · exact hd.log e ha' h3
+    · have hmem_iff : e ∈ toApply nd j ↔ e ∈ nd.disk.ls.log := by
+        simp only [toApply, List.mem_filter, hla, h3, h4, Bool.true_and, decide_true, and_true]
+      rw [← hmem_iff, hok']
+      simp only [List.mem_filter, h3, h4, Bool.true_and, decide_true, and_true]
+  · show memAfter nd (.applyTo j) = smOf G (oidx (memAfter nd (.applyTo j)).lastApplied)
+    rw [hm]; exact hcut1
+
+theorem step_inv {G : List Entry} (hG : Sorted G) {nd : Node} (h : Inv G nd) (op : Op) (hok : op.Ok G nd) :
+    Inv G (step nd op) := by
+  cases op with
+  | saveVote v => exact inv_saveVote h v
+  | append es => exact inv_append h es hok
+  | applyTo j => exact inv_apply hG h j hok
+  | buildSnapshot => exact inv_build h
+  | installSnapshot s => exact inv_install hG h s hok
+  | purge id => exact inv_purge h id hok
+  | deleteConflict id => exact inv_deleteConflict h id hok
+
+/-- every operation is one atomic write, so a crash sees the disk before or after it -/
+theorem writesOf_single (nd : Node) (op : Op) : ∃ w, writesOf nd op = [w] := by
+  cases op <;> exact ⟨_, rfl⟩
+
+theorem crash_inv {G : List Entry} (hG : Sorted G) {nd : Node} (h : Inv G nd) (ops : List Op) (hok : OpsOk G nd ops) :
+    ∀ d ∈ crashDisks nd ops, DInv G d := by
+  induction ops generalizing nd with
+  | nil => intro d hd; simp only [crashDisks, List.mem_singleton] at hd; subst hd; exact h.disk
+  | cons op ops ih =>
+    intro d hd
+    simp only [crashDisks, List.mem_append] at hd
+    have hnext := step_inv hG h op hok.1
+    rcases hd with hd | hd
+    · obtain ⟨w, hw⟩ := writesOf_single nd op
+      rw [hw] at hd
+      simp only [prefixDisks, List.mem_cons, List.not_mem_nil, or_false] at hd
+      rcases hd with rfl | rfl
+      · exact h.disk
+      · have : applyWrite nd.disk w = (step nd op).disk := by
+          rw [step_disk, hw]; rfl
+        rw [this]; exact hnext.disk
+    · exact ih hnext hok.2 d hd
+
+theorem run_inv {G : List Entry} (hG : Sorted G) (ops : List Op) :
+    ∀ nd, Inv G nd → OpsOk G nd ops → Inv G (run nd ops) := by
+  induction ops with
+  | nil => intro nd hi _; exact hi
+  | cons op ops ih =>
+    intro nd hi hok
+    exact ih (step nd op) (step_inv hG hi op hok.1) hok.2
+
 end Varpulis.RaftStore
